@@ -53,3 +53,52 @@ Proof. vm_compute. split; [reflexivity|discriminate]. Qed.
 
 Print Assumptions c06_roundtrip.
 Print Assumptions c06_frames.
+
+(* ---------------------------------------------------------------------------------------------------------------------
+   The encoder emits bytes (Proofs/EncBytesP.v).  Statements only. *)
+From ACPI Require Import Proofs.FieldListP Proofs.EncBytesP.
+
+(* In the model the encoder returns a list of natural numbers; in Rust it feeds a sink of u8.  This is the missing link:
+   if every constructor argument that the encoder copies into its output as it stands is inside the range of the type it
+   has in the crate's API -- [typed t]: the u8 arguments (a u8 integer, PowerResource level, Mutex sync level, OpRegion
+   space, IO alignment/length, the four Register bytes) < 256; the bool arguments (Method serialized, Memory32Fixed and
+   AddressSpace read_write, the four Interrupt flags) <= 1; Field access < 16, lock <= 1, update < 4; AddressSpace type one
+   of the three constructors; strings, name texts, field names, named field entries and BufferData made of bytes -- then
+   in both build profiles everything the encoder emits for t is a byte.  No hypothesis is needed for anything else: the
+   other arguments go through a cast, a little-endian image, a mask, a PkgLength or a refusal before they reach the output.
+   The check is decidable ([typed t] is [typedb t = true]). *)
+Theorem c06_encoder_emits_bytes :
+  forall md t b, typed t -> enc md t = Some b -> bytes_ok b = true.
+Proof. exact enc_bytes_ok. Qed.
+
+(* the pieces, each on its own: child lists, descriptors, field entries, PkgLength *)
+Theorem c06_encoder_pieces_emit_bytes :
+  (forall md ks b, Forall typed ks -> encs md ks = Some b -> bytes_ok b = true) /\
+  (forall d b, typed_desc d -> enc_desc d = Some b -> bytes_ok b = true) /\
+  (forall md e b, typed_fentry e -> enc_fentry md e = Some b -> bytes_ok b = true) /\
+  (forall md len incl b, pkg_len md len incl = Some b -> bytes_ok b = true).
+Proof. exact (conj encs_bytes_ok (conj enc_desc_bytes_ok (conj enc_fentry_bytes_ok pkg_len_bytes_ok))). Qed.
+
+(* For the terms c06_roundtrip speaks about most of [typed] is already implied: a well-formed term is typed as soon as
+   its strings and BufferData are made of bytes and the descriptors inside its ResourceTemplates are typed ([rawb t]). *)
+Theorem c06_wellformed_is_typed :
+  forall env el t, wf env el t -> rawb t = true -> typed t.
+Proof. exact wf_raw_typed. Qed.
+
+(* non-vacuity: the demo tree is typed and its encoding (both profiles) is a byte list; and the hypothesis is needed:
+   a string with a 300 in it is well-formed, is not typed, and the 300 is emitted *)
+Example c06_demo_typed :
+  typed c06_demo /\
+  match enc Wrapping c06_demo, enc Checked c06_demo with
+  | Some b, Some b' => bytes_ok b = true /\ bytes_ok b' = true /\ b <> []
+  | _, _ => False
+  end.
+Proof. vm_compute. repeat split; discriminate. Qed.
+
+Example c06_typed_needed :
+  typedb (TStr [300]) = false /\ enc Checked (TStr [300]) = Some [0x0D; 300; 0] /\ bytes_ok [0x0D; 300; 0] = false.
+Proof. vm_compute. repeat split. Qed.
+
+Print Assumptions c06_encoder_emits_bytes.
+Print Assumptions c06_encoder_pieces_emit_bytes.
+Print Assumptions c06_wellformed_is_typed.
